@@ -7,6 +7,7 @@
 //@ harness e_quit_status kind=enum props=C01,C18 bound=<<one or two starting points x an action before -quit that succeeds (-print0) or fails (-fprint /dev/full) on the first entry>> label=<<once -quit is evaluated nothing further is evaluated for that entry or any later entry or starting point, whether or not an earlier action on the same entry failed; the exit status still reports the failure>>
 //@ harness e_delete_vanished kind=enum props=C10 bound=<<a file removed by an earlier -exec rm on the same entry, or deleted twice by ( -delete , -delete ); a non-empty directory as control>> label=<<an entry that cannot be removed (it is already gone, or it is a non-empty directory) makes -delete false for that entry and find's exit status non-zero>>
 //@ harness e_delete kind=enum props=C10 bound=<<a tree with two files, a nested directory with a file, a link to a file, a link to a directory and a link pointing outside, targets outside the tree and a file whose name is not valid UTF-8 x tests {-true, -name 'f*', -type f, -type l, -type d, -name sub, ! -name keep, -type f -empty} x -P / -H>> label=<<find T EXPR -delete removes exactly the entries that -depth EXPR -print reports on an identical tree (a non-empty directory stays and makes the exit status non-zero), never a link's target, and nothing outside>>
+//@ harness e_exec_spellings kind=enum props=C09 bound=<<a tree T/{f, sub/g} x starting point spelled T, T/, T//, T/./sub, T/sub/../sub x an extra command argument from {none, --version, -version, --help, -help, -print, ), -o, {}+} x template {} or x{}y x -exec / -execdir; real processes recording argv and working directory>> label=<<the path substituted for {} is the entry's path exactly as -print0 prints it for that spelling of the starting point (./basename and the parent directory for -execdir), and every word between CMD and ; - whatever it looks like, find's own options and operators included - reaches CMD as one argv element>>
 #[cfg(verif_replay)]
 mod verif_enum_actions {
     use super::*;
@@ -317,4 +318,49 @@ mod verif_enum_actions {
         assert!((rca != 0) == undeletable, "exit status: non-zero iff an entry could not be removed");
     }
     #[test] fn e_delete() { kani::explore(delete_body) }
+
+    fn exec_spellings_body() {
+        let d = scratch("execsp");
+        let t = d.join("T");
+        std::fs::create_dir_all(t.join("sub")).unwrap();
+        std::fs::write(t.join("f"), "").unwrap();
+        std::fs::write(t.join("sub/g"), "").unwrap();
+        let ts = t.to_str().unwrap().to_string();
+        let root = [ts.clone(), format!("{ts}/"), format!("{ts}//"), format!("{ts}/./sub"), format!("{ts}/sub/../sub")][pick(5)].clone();
+        let extra = [None, Some("--version"), Some("-version"), Some("--help"), Some("-help"), Some("-print"), Some(")"), Some("-o"), Some("{}+")][pick(9)];
+        let tpl = ["{}", "x{}y"][pick(2)];
+        let dir_mode = pick(2) == 1;
+        let log = d.join("log");
+        let script = format!("pwd -P >> '{l}'; for a; do printf '<%s>' \"$a\" >> '{l}'; done; printf '\\0' >> '{l}'", l = log.display());
+        // the entries and their paths as printed: the same walk with -print0 alone
+        let (rc0, listed) = run(&["find", &root, "-sorted", "-type", "f", "-print0"]);
+        let paths: Vec<Vec<u8>> = listed.split(|b| *b == 0).filter(|r| !r.is_empty()).map(|r| r.to_vec()).collect();
+        let mut args: Vec<&str> = vec!["find", &root, "-sorted", "-type", "f", if dir_mode { "-execdir" } else { "-exec" }, "sh", "-c", &script, "sh"];
+        if let Some(e) = extra { args.push(e); }
+        args.push(tpl);
+        args.extend_from_slice(&[";", "-print0"]);
+        let (rc, out) = run(&args);
+        let got = std::fs::read(&log).unwrap_or_default();
+        let cwd: Vec<u8> = std::env::current_dir().unwrap().canonicalize().unwrap().as_os_str().as_bytes().to_vec();
+        let mut want: Vec<u8> = Vec::new();
+        for p in &paths {
+            let pp = Path::new(OsStr::from_bytes(p));
+            let shown: Vec<u8> = if dir_mode { let mut v = b"./".to_vec(); v.extend_from_slice(pp.file_name().unwrap().as_bytes()); v } else { p.clone() };
+            let wd: Vec<u8> = if dir_mode { pp.parent().unwrap().canonicalize().unwrap().as_os_str().as_bytes().to_vec() } else { cwd.clone() };
+            want.extend_from_slice(&wd);
+            want.push(b'\n');
+            if let Some(e) = extra { want.push(b'<'); want.extend_from_slice(&subst(e, &shown)); want.push(b'>'); }
+            want.push(b'<'); want.extend_from_slice(&subst(tpl, &shown)); want.push(b'>');
+            want.push(0);
+        }
+        let _ = std::fs::remove_dir_all(&d);
+        let ok = rc0 == 0 && rc == 0 && !paths.is_empty() && got == want && out == listed;
+        if !ok {
+            eprintln!("  input find {:?} -sorted -type f {} sh -c SCRIPT sh {:?} {:?} ; -print0  (exit {rc})\n  input argv records {:?}\n  input expected     {:?}\n  input printed {:?}, expected {:?}",
+                      root.replace(&ts, "T"), if dir_mode { "-execdir" } else { "-exec" }, extra, tpl,
+                      String::from_utf8_lossy(&got).replace(&ts, "T"), String::from_utf8_lossy(&want).replace(&ts, "T"), String::from_utf8_lossy(&out).replace(&ts, "T"), String::from_utf8_lossy(&listed).replace(&ts, "T"));
+        }
+        assert!(ok, "the command did not receive the path as printed, or an argument between CMD and ; was not passed through");
+    }
+    #[test] fn e_exec_spellings() { kani::explore(exec_spellings_body) }
 }
